@@ -4,6 +4,6 @@ import asyncio
 
 async def work3(*args, **kwargs):
     import ctrlrun
-    ctrlrun.LOG.append(("work3", repr(args), repr(sorted(kwargs.items()))))
+    ctrlrun.LOG.append((ctrlrun.WHO.get(), "work3", repr(args), repr(sorted(kwargs.items()))))
     ctrlrun._consume(args, kwargs)
     await asyncio.sleep(0)
